@@ -364,8 +364,18 @@ func (g *Gen) Msg(d MD, depth int) *Msg {
 			}
 		case fd.IsList():
 			n := 1 + r.Intn(g.O.MaxElems)
-			if r.Intn(10) == 0 {
-				n += 130 // packed payload >= 128 bytes
+			if g.O.LongValues {
+				switch r.Intn(12) {
+				case 0:
+					n += 130 // packed payload >= 128 bytes for every element width
+				case 1:
+					// payload lengths around the 1->2 byte length-varint boundary for 8/4/1-byte elements
+					n = []int{15, 16, 17, 31, 32, 33, 63, 64, 127, 128, 129}[r.Intn(11)]
+				case 2:
+					if r.Intn(6) == 0 {
+						n = []int{2047, 2048, 4096}[r.Intn(3)] // 2->3 byte boundary
+					}
+				}
 			}
 			if isMsg && n > 4 {
 				n = 1 + r.Intn(4)
